@@ -46,9 +46,24 @@ def module_globals():
     return g
 
 
+INTERPS = []          # every interpreter created in this (worker) process: their `called` sets are the measured coverage
+
+
+def c_functions_interpreted():
+    out = set()
+    for it in INTERPS:
+        out |= set(it.called)
+    return sorted(out)
+
+
 def new_interp():
     api = capi.build(None)
     it = csym.Interp(PROGRAM, api, module_globals())
+    INTERPS.append(it)
+    if len(INTERPS) > 64:          # keep the names, drop the interpreters
+        keep = c_functions_interpreted()
+        del INTERPS[:]
+        INTERPS.append(type("Called", (), {"called": set(keep)})())
     it.st = api["__state__"]
     install_bridge(it)
     install_ht_bridge(it)
